@@ -417,6 +417,12 @@ class Peer:
         self.fsm_runner.clear()
         # Let's make sure we do some work with this connection
         self._delay.reset()
+        # asyncio: fsm_runner.clear() does not restart the coroutine, which may be waiting for an OPEN on the
+        # connection just closed: the accepted one was only looked at when open-wait expired, and then sent a
+        # NOTIFICATION 5/1.  Start over: the reactor creates a new task, which finds self.proto already set.
+        if self._async_task is not None and not self._async_task.done():
+            self._async_task.cancel()
+            self._async_task = None
         return None
 
     def established(self) -> bool:
